@@ -33,7 +33,9 @@ func TestTqvWitness(t *testing.T) {
 	}
 	s := newSessionProvider()
 	base := tqvGauge()
-	hdr := func(id SessionID, seq int) Header { return Header{SessionID: id, SeqNo: SequenceNumber(seq), Type: Authenticate} }
+	hdr := func(id SessionID, seq int) Header {
+		return Header{SessionID: id, SeqNo: SequenceNumber(seq), Type: Authenticate}
+	}
 	hA, hB := &tqvH{"A"}, &tqvH{"B"}
 	// two sessions open
 	if st, err := s.get(hdr(1, 1)); err != nil || st != nil {
